@@ -13,12 +13,41 @@ from ..core import Discard, HarnessError, Stats, hyp_search, subseed
 from ..irpasses import innermost_ppci_frame
 
 PID = "C23"
-REGISTER = False
-RULE = "tbd"
-ASSUMPTIONS = []
-TRUSTED = ["CPython", "Hypothesis", "vf/irsem.py (reference interpreter)", "vf/genir.py", "Node/V8 WebAssembly engine (vf/irnode.js)"]
-TECHNIQUE = "differential: ir_to_wasm output executed by V8 vs reference IR interpreter on Hypothesis-generated IR modules and C programs"
-LEVEL_TEXT = "tbd"
+REGISTER = True
+RULE = (
+    "Hypothesis-generated IR modules (vf/genir.py, 32-bit pointers; structured and unstructured CFGs incl. permuted block "
+    "order, two-exit and nested loops, irreducible entries; globals with initial data; direct, external and indirect calls "
+    "through function pointers; self tail calls) in five variants - main (instruction menu restricted to what ir_to_wasm "
+    "implements), static_data (initial data and literals left as static data -> wasm data segments), same_target_cjmp, "
+    "full_menu (everything genir can produce: measures the rejection classes) - and C units from vf/gencc.py compiled the way "
+    "the repository's wasm sample test does it (c_to_ir(src, 'arm'), optimisation level 0; gencc's LP64 type model does "
+    "not matter because the oracle is the IR the front-end produced, not gcc). Every module is instrumented IN IR with "
+    "caller buffers as globals, byte/word reader functions for every global (ir_to_wasm exports no memory) and - unless "
+    "variant static_data - a c23_init() procedure that stores the initial data; the SAME instrumented module is run by "
+    "the reference interpreter vf/irsem.py (two memory layouts, address dependent parts masked) and, after "
+    "ir_to_wasm(m).to_bytes(), by V8 (vf/irnode.js: fresh instance per call; externals are host imports 'js.<name>' that log "
+    "their arguments and return irsem's ext_default value). Compared per call: return value (reduced to the ir type), "
+    "external call trace, every byte of every global and buffer. Executions undefined in IR terms are not run. ANY "
+    "exception of ir_to_wasm is a rejection (acceptable, counted by exception type / innermost ppci frame / message "
+    "class); a translated module that V8 does not validate or instantiate, traps, hangs or observes differently is a failure. "
+    "non-trivial = translated AND at least one defined call executed and compared; distinct = (module or source, calls, init mode)"
+)
+ASSUMPTIONS = [
+    "IR semantics of DESIGN.md 3.1 (vf/irsem.py), 32-bit little-endian; external routines are pure functions of (name, arguments, call index)",
+    "sub-word and u32 values cross the export boundary in the wasm type ppci chose (i8..i32, ptr -> i32; u32, i64, u64 -> i64); arguments are passed sign/zero extended by their ir type and results are reduced to the ir type before comparison",
+    "NaN sign/payload is not compared (return values as a class; memory words that hold a NaN on both sides are equal)",
+    "the translated module has a virtual stack of 1000 bytes: an out-of-bounds trap is discarded only when the static frame bound of the call chain exceeds it",
+    "C programs: optimisation level 0 only, as in test/samples/test_samples_on_wasm.py",
+]
+TRUSTED = ["CPython", "Hypothesis", "vf/irsem.py (reference interpreter)", "vf/genir.py", "vf/gencc.py", "Node/V8 WebAssembly engine (vf/irnode.js, vf/irnode.py)"]
+TECHNIQUE = "differential: ir_to_wasm output executed by V8 vs reference IR interpreter on Hypothesis-generated IR modules and C programs; rejections counted by class"
+LEVEL_TEXT = (
+    "Exploration with a differential oracle: for generated IR modules and front-end produced modules of generated C programs "
+    "the binary produced by ir_to_wasm is validated, instantiated and executed by V8 and compared call by call with an "
+    "independent IR interpreter on return value, external call trace and all global memory (read back through generated IR "
+    "reader functions). Rejections are counted by class so that a translator that rejects a whole feature is visible. The "
+    "translator is a deterministic function of the module, so generated-input search is the fitting level; no bound is closed."
+)
 
 FUEL = 20000
 STACKSIZE = 1000  # ppci2wasm: IrToWasmCompiler.STACKSIZE, the whole virtual stack of a translated module
@@ -84,7 +113,7 @@ def _wasm_forbidden(exclude=()):
 
 def wasm_profile(exclude=(), **kw):
     base = dict(name="c23", ptr_bits=32, rotates=False, copyblob=False, global_refs=False, forbidden=_wasm_forbidden(exclude),
-                permute_blocks=True, max_funcs=3, max_blocks=8, distinct_cjmp_targets=True, obs_type="i64", literals=False, indirect_boost=2)
+                permute_blocks=True, max_funcs=3, max_blocks=8, distinct_cjmp_targets=True, obs_type="i64", literals=False, indirect_boost=2, observe_pct=60)
     base.update(kw)
     return genir.Profile(**base)
 
@@ -607,7 +636,8 @@ def replay(case):
 # ---------------------------------------------------------------------------
 # open findings: shapes (for exclusion and classification)
 
-KF_ALL = ("KF1", "KF2", "KF3", "KF4", "KF5", "KF6", "KF7")
+KF_ALL = ("KF1", "KF2", "KF3", "KF4", "KF5", "KF6", "KF7", "KF8")
+_SAME_SIZE_SIGN = {("i8", "u8"), ("u8", "i8"), ("i16", "u16"), ("u16", "i16")}
 _WIDENING = {("i8", "i32"), ("u8", "i32"), ("i16", "i32"), ("u16", "i32"), ("u8", "u32"), ("u16", "u32")}
 
 
@@ -643,7 +673,9 @@ def hazards(m):
                     hz.add("KF1")
                 elif isinstance(ins, ir.Cast):
                     sn = ins.src.ty.name
-                    if tn in NARROW and sn != tn and (sn, tn) not in _WIDENING:
+                    if (sn, tn) in _SAME_SIZE_SIGN:
+                        hz.add("KF8")
+                    elif tn in NARROW and sn != tn and (sn, tn) not in _WIDENING:
                         hz.add("KF1")
                     if sn in ("f32", "f64") and tn not in ("f32", "f64"):
                         hz.add("KF2")
@@ -744,7 +776,7 @@ def classify(case, msg):
                 return "C23-KF7"
         except Exception:
             pass
-    for k in ("KF1", "KF2", "KF4"):
+    for k in ("KF8", "KF1", "KF2", "KF4"):
         if k in hz:
             return "C23-" + k
     return None
@@ -757,7 +789,9 @@ def full_profile(exclude=()):
     """Full instruction menu (what ir_to_wasm does not implement is REJECTED and counted by class) minus the shapes
     of the open findings."""
     forb = [x for x in _wasm_forbidden(exclude) if x not in set(_wasm_forbidden(()))]
-    return genir.Profile(name="c23-full", ptr_bits=32, permute_blocks=True, obs_type="i64", indirect_boost=2, forbidden=forb)
+    if "KF8" in exclude:
+        forb += [("cast", a, b) for a, b in sorted(_SAME_SIZE_SIGN)]
+    return genir.Profile(name="c23-full", ptr_bits=32, permute_blocks=True, obs_type="i64", indirect_boost=2, observe_pct=60, forbidden=forb)
 
 
 def calls_for(draw, desc, profile):
@@ -801,16 +835,126 @@ def case_strategy(draw, exclude=(), excluded=None):
     return draw(c_case_strategy(exclude))
 
 
+# ---------------------------------------------------------------------------
+# operator sweep: one tiny module per (operator, type) / (cast pair) / (condition, type) / (memory type), boundary
+# argument vectors.  Random modules exercise a given (operator, type, operand sign) too rarely for the quick tier
+# (measured: 1 module in 600 notices an 'i32 >>' that shifts logically); the sweep is enumerated, seed independent.
+
+def _widen(t):
+    return {"i8": "i32", "u8": "i32", "i16": "i32", "u16": "i32", "u32": "u64"}.get(t, t)
+
+
+def _boundary(t, n):
+    if t in ("f32", "f64"):
+        vals = [0.0, 1.0, -1.0, 1.5, -2.5, 2.5, 0.5, -0.75, 100.0, 3.999, -3.999, 1e6, 65536.0, 2147483520.0 if t == "f32" else 2147483647.0, -7.25, 16777217.0]
+        return [genir.fhex(irsem.round_f32(v) if t == "f32" else v) for v in vals][:n]
+    lo, hi = genir.int_range(t)
+    b = genir.BITS[t]
+    vals = [0, 1, hi, lo, -1, 2, hi - 1, lo + 1, 1 << (b - 2), 3, -3, 7, 100, -128, 255, 0x55 & hi, 1 << (b - 1), (1 << (b - 1)) - 3, 31, 5]
+    out = []
+    for v in vals:
+        if lo <= v <= hi and v not in out:
+            out.append(v)
+    return out[:n]
+
+
+def _sweep_fn(name, params, ret, blocks):
+    if isinstance(blocks, list):
+        blocks = {name + "_b0": blocks}
+    bl = [{"name": k, "ins": v} for k, v in blocks.items()]
+    return {"name": name, "params": params, "ret": ret, "bufs": {}, "tailrec": False, "blocks": bl, "layout": list(range(len(bl)))}
+
+
+def _sweep_case(tag, fns, calls):
+    desc = {"ptr_bits": 32, "globals": [{"name": "g0", "size": 8, "align": 8, "init": None}], "externals": [], "functions": fns}
+    return {"module": desc, "calls": calls, "init": "stores", "variant": "sweep", "tag": tag}
+
+
+def sweep_cases():
+    cases = []
+    types = genir.INT_TYPES + genir.FLOAT_TYPES
+    for t in types:
+        fl = t in genir.FLOAT_TYPES
+        w = _widen(t)
+        vals = _boundary(t, 9)
+        pairs = [[a, b] for a in vals for b in vals]
+        tail = ([["cast", "y", w, "x"], ["ret", "y"]] if w != t else [["ret", "x"]])
+        for op in (genir.FLOAT_OPS if fl else genir.INT_OPS + genir.ROT_OPS):
+            f = _sweep_fn("f0", [["a", t], ["b", t]], w, [["binop", "x", t, "a", op, "b"], ["store", "x", "g0", False]] + tail)
+            cases.append(_sweep_case("binop:%s:%s" % (t, op), [f], [["f0", p] for p in pairs]))
+        for op in (["-"] if fl else ["-", "~"]):
+            f = _sweep_fn("f0", [["a", t]], w, [["unop", "x", t, op, "a"], ["store", "x", "g0", False]] + tail)
+            cases.append(_sweep_case("unop:%s:%s" % (t, op), [f], [["f0", [a]] for a in _boundary(t, 20)]))
+        for cond in genir.CONDS:
+            f = _sweep_fn("f0", [["a", t], ["b", t]], "i32", {
+                "e": [["const", "one", "i32", 1], ["const", "zero", "i32", 0], ["cjmp", "a", cond, "b", "y", "n"]],
+                "y": [["ret", "one"]],
+                "n": [["ret", "zero"]]})
+            cases.append(_sweep_case("cjmp:%s:%s" % (t, cond), [f], [["f0", p] for p in pairs]))
+        for d in types:
+            wd = _widen(d)
+            tl = ([["cast", "y", wd, "x"], ["ret", "y"]] if wd != d else [["ret", "x"]])
+            f = _sweep_fn("f0", [["a", t]], wd, [["cast", "x", d, "a"], ["store", "x", "g0", False]] + tl)
+            cases.append(_sweep_case("cast:%s:%s" % (t, d), [f], [["f0", [a]] for a in _boundary(t, 20)]))
+        # memory: store as t, load back as every type of the same size
+        for d in types:
+            if genir.BITS[d] != genir.BITS[t] or (d in genir.FLOAT_TYPES) != fl:
+                continue
+            wd = _widen(d)
+            tl = ([["cast", "y", wd, "x"], ["ret", "y"]] if wd != d else [["ret", "x"]])
+            f = _sweep_fn("f0", [["a", t]], wd, [["const", "four", "ptr", 4], ["binop", "q", "ptr", "g0", "+", "four"], ["store", "a", "q", False], ["load", "x", d, "q", False]] + tl)
+            cases.append(_sweep_case("mem:%s:%s" % (t, d), [f], [["f0", [a]] for a in _boundary(t, 20)]))
+    return cases
+
+
+def _sweep_worker(arg):
+    shard, nshards = arg
+    stats = Stats()
+    fails = []
+    from ..core import open_finding_ids
+
+    open_ids = open_finding_ids(PID)
+    try:
+        for case in sweep_cases()[shard::nshards]:
+            try:
+                msg, info = run_case(case, stats)
+            except Discard as d:
+                stats.discard(d.reason)
+                continue
+            kind = case["tag"].split(":")[0]
+            if info["reject"] is not None:
+                stats.case(None, False, None, classes=[info["reject"].klass(), "rejected", "rejected[sweep]", "sweep_rejected:" + case["tag"]])
+                continue
+            nt = info["executed"] > 0
+            stats.case(case["tag"], nt, {"variant": "sweep", "tag": case["tag"], "function": case["module"]["functions"][0], "calls": case["calls"][:3]} if nt and shard == 0 and len(stats.samples) < 2 else None,
+                       classes=["translated", "translated[sweep]", "sweep:" + kind] + (["executed[sweep]"] if nt else []))
+            if msg:
+                kid = classify(case, msg)
+                if kid and kid in open_ids:
+                    stats.known[kid] += 1
+                elif len(fails) < 2:
+                    small = dict(case)
+                    fails.append((small, msg))
+    finally:
+        close_node()
+    return stats, fails
+
+
 def _worker(arg):
     seed, n = arg
     stats = Stats()
     exclude = open_kfs()
 
     def prop(case):
+        import time
+
+        t0 = time.time()
         msg, info = run_case(case, stats)
+        if time.time() - t0 > 8 and len(stats.notes) < 5:
+            stats.notes.append("slow case (%.0f s): variant %s, translated %s, message %s" % (time.time() - t0, case.get("variant"), info["translated"], str(msg)[:120]))
         var = case.get("variant", "main")
         for k in exclude:
-            if k not in ("KF5", "KF6", "KF7"):
+            if k not in ("KF5", "KF6", "KF7", "KF8"):
                 stats.excluded["C23-" + k] += 1
         nt = info["translated"] and info["executed"] > 0
         if info["reject"] is not None:
@@ -839,7 +983,8 @@ def _worker(arg):
 
 
 def run(ctx):
-    n = ctx.scale(1600, 48000)
+    n = ctx.scale(1200, 48000)
+    ctx.pmap(_sweep_worker, [(w, 16) for w in range(16)])
     ctx.pmap(_worker, [(subseed(ctx.seed, PID, w), max(1, n // 16)) for w in range(16)])
     h = ctx.stats.hist
     rej = {k: v for k, v in h.items() if str(k).startswith("rejected:")}
